@@ -134,3 +134,47 @@ def all_alts(t, pred):
 
 def any_alt(t, pred):
     return any(pred(a) for a in alternatives(t))
+
+
+# ---------------------------------------------------------------------------------------------
+def _lookup_or_none(res, x):
+    """(map term, key term) when the value of expression x is the entry of a mapping for a key, or None
+    exactly when the key is absent: `m.get(k)`, or the `try: v = m[k] / except KeyError: v = None` idiom
+    (also through a helper that was inlined).  Else None."""
+    t = res.term(x)
+    if t[0] == "call" and t[1][0] == "attr" and t[1][2] == "get" and len(t[2]) == 1 and not t[3]:
+        return t[1][1], t[2][0]
+    if not isinstance(x, ast.Name):
+        return None
+    org = res.origins(x)
+    subs = [(st, tt) for st, tt in org if tt[0] == "sub"]
+    nones = [(st, tt) for st, tt in org if tt == ("const", None)]
+    if len(subs) != 1 or len(nones) != 1 or len(org) != 2:
+        return None
+    (sst, stt), (nst, _) = subs[0], nones[0]
+    h = getattr(nst, "_parent", None)
+    if not (isinstance(h, ast.ExceptHandler) and isinstance(h.type, ast.Name) and h.type.id == "KeyError" and h.body == [nst]):
+        return None
+    tr = getattr(h, "_parent", None)
+    if not (isinstance(tr, ast.Try) and tr.body == [sst] and not tr.orelse and not tr.finalbody and len(tr.handlers) == 1):
+        return None
+    if not (isinstance(sst, ast.Assign) and isinstance(nst, ast.Assign) and ast.dump(sst.targets[0]) == ast.dump(nst.targets[0])):
+        return None
+    return stt[1], stt[2]
+
+
+def absent_keys(cfg, res, nid):
+    """[(map term, key term)]: `key not in map` holds on every path to CFG node nid - by a membership test,
+    or by a None test of a lookup that yields None exactly for an absent key."""
+    out = []
+    for e, val in cfg.facts_at(nid):
+        k, l, r, pos = norm_fact(e, val)
+        if k == "in" and not pos:
+            out.append((res.term(r), res.term(l)))
+            continue
+        nf = none_fact((k, l, r, pos))
+        if nf is not None and nf[1]:
+            lk = _lookup_or_none(res, nf[0])
+            if lk is not None:
+                out.append(lk)
+    return out
